@@ -31,7 +31,7 @@ Forms(v, w) == <<
   <<"arg", SPrint(Call(Id("f"), <<v>>))>>, <<"var", SVar("nv", v)>>, <<"while", SWhile(v, SBlock(<<SPrint(Str("W")), SBreak>>))>> >>
 Prelude == << SVar("A", Arr(<<Num(1), Num(2)>>)), SVar("O", Obj(<<"k">>, <<Num(1)>>)), SFun("f", <<"x">>, <<SReturn(Id("x"))>>),
               SVar("CA", Arr(<<Num(0)>>)), SExpr(IAsg(Id("CA"), Num(0), Id("CA"))), SVar("CO", Obj(<<"k">>, <<Num(0)>>)), SExpr(PAsg(Id("CO"), "k", Id("CO"))) >>
-Partners == << 1, 3, 5, 10, 13, 19 >>      \* the second operand ranges over a sub-pool
+Partners == << 1, 3, 5, 7, 8, 10, 13, 19 >>      \* the second operand ranges over a sub-pool
 FormCases == FlattenSeq([vi \in 1..Len(Vals) |-> FlattenSeq([wj \in 1..Len(Partners) |->
                 LET v == Vals[vi]  w == Vals[Partners[wj]]  fs == Forms(v[2], w[2]) IN
                 [k \in 1..Len(fs) |-> [t |-> Prelude \o <<fs[k][2], SPrint(Str("alive"))>>, c |-> "form:" \o fs[k][1] \o "|" \o v[1], key |-> "form:" \o fs[k][1] \o "(" \o v[1] \o "," \o w[1] \o ")"]]])])
